@@ -230,6 +230,9 @@ func (m *Manager) Peer(ctx context.Context, datahash share.DataHash, height uint
 	// obtained from discovery
 	peerID, ok = m.nodes.tryGet()
 	if ok {
+		if m.removeIfBlacklisted(peerID) {
+			return m.Peer(ctx, datahash, height)
+		}
 		return m.newPeer(ctx, datahash, peerID, sourceDiscoveredNodes, m.nodes.len(), 0)
 	}
 
@@ -242,6 +245,9 @@ func (m *Manager) Peer(ctx context.Context, datahash share.DataHash, height uint
 		}
 		return m.newPeer(ctx, datahash, peerID, sourceShrexSub, p.len(), time.Since(start))
 	case peerID = <-m.nodes.next(ctx):
+		if m.removeIfBlacklisted(peerID) {
+			return m.Peer(ctx, datahash, height)
+		}
 		return m.newPeer(ctx, datahash, peerID, sourceDiscoveredNodes, m.nodes.len(), time.Since(start))
 	case <-ctx.Done():
 		return "", nil, ctx.Err()
@@ -462,8 +468,16 @@ func (m *Manager) validatedPool(hashStr string, height uint64) *syncPool {
 	p := m.getOrCreatePool(hashStr, height)
 	if p.isValidatedDataHash.CompareAndSwap(false, true) {
 		log.Debugw("pool marked validated", "datahash", hashStr)
-		// if pool is proven to be valid, add all collected peers to discovered nodes
-		m.nodes.add(p.peers()...)
+		// if pool is proven to be valid, add all collected peers to discovered nodes, except for
+		// those that have been blacklisted since they were collected
+		collected := p.peers()
+		peers := collected[:0]
+		for _, peerID := range collected {
+			if !m.isBlacklistedPeer(peerID) {
+				peers = append(peers, peerID)
+			}
+		}
+		m.nodes.add(peers...)
 	}
 	return p
 }
@@ -473,6 +487,18 @@ func (m *Manager) removeIfUnreachable(pool *syncPool, peerID peer.ID) bool {
 	if m.isBlacklistedPeer(peerID) || !m.nodes.has(peerID) {
 		log.Debugw("removing outdated peer from pool", "peer", peerID.String())
 		pool.remove(peerID)
+		return true
+	}
+	return false
+}
+
+// removeIfBlacklisted removes peer from discovered nodes pool if it is blacklisted. A blacklisted
+// peer must not be handed out from that pool either; it can get there after being blacklisted (e.g.
+// by a Validate that checked the blacklist just before the peer was added to it).
+func (m *Manager) removeIfBlacklisted(peerID peer.ID) bool {
+	if m.isBlacklistedPeer(peerID) {
+		log.Debugw("removing blacklisted peer from discovered nodes pool", "peer", peerID.String())
+		m.nodes.remove(peerID)
 		return true
 	}
 	return false
